@@ -62,6 +62,13 @@ Theorem C06_bind_decrypts :
 Proof. exact bind_decrypts. Qed.
 Print Assumptions C06_bind_decrypts.
 
+(* The receiver above uses the specification's own AES-IGE pass (p_i = D (c_i xor p_(i-1)) xor c_(i-1),
+   iv = c_0 + p_0); it coincides with the model of github.com/gotd/ige's DecryptBlocks on all inputs. *)
+Theorem C06_spec_ige_is_library_ige :
+  forall (D : list Z -> list Z) (iv data : list Z), Spec.ige_decrypt D iv data = ige_dec_raw D iv data.
+Proof. exact spec_ige_eq. Qed.
+Print Assumptions C06_spec_ige_is_library_ige.
+
 (* ---- non-vacuity ---- *)
 Definition toy_hash (n : nat) (m : list Z) : list Z := firstn n (m ++ repeat 0 n).
 Example C06_hash_hypotheses_satisfiable :
